@@ -69,8 +69,7 @@ CLAIMED.update({
  "C14": {
   "engine": "ledgerh+CheckLedger",
   "technique": "Coq: all-or-nothing loaded flag and refusal of every malformed-stream class of the property; reproduction of the peer's ledger decided by the acceptor on real StreamDAG->LoadDag runs plus snapshot/balance/follow-up monitors",
-  "text": "C14_failure_leaves_not_loaded, C14_malformed_stream_refused (second self-sealed vertex, empty transaction, non-canonical amount, duplicate vertex/transaction, unknown parent or cycle), C14_followup_verdicts_refuted (the loaded node has the peer's vertices, edges and genesis wallet but not its weight/throughput counters: kernel-checked pair of ledgers that answer the same later vertex differently; KNOWN-FINDING reproduced on the real code on every run). That a successful load reproduces vertices, edges, index, genesis wallet, balances and follow-up verdicts is checked on the real code (source vs loaded snapshots, balances, identical follow-up gossip) and against the model's load_dag on every run; KNOWN-FINDING: a peer that has truncated cannot be loaded from.",
-  "note": LEDGER_NOTE + " Reproduction theorem (load_dag of a reachable stream = source up to order) not yet proved: partial.", "design_ref": "6 C14",
+  "text": "C14_one_genesis (reachable ledgers have at most one parentless vertex: the genesis vertex sealed by the genesis wallet), C14_load_reproduces_peer (for every reachable peer that never truncated and still holds its non-empty genesis vertex, for EVERY order of the stream: the load succeeds and the loaded node holds exactly the peer's vertices with set-equal parent links, the same transaction index as a map, the same genesis wallet, and answers every balance query - any address, tip, cancellation point - exactly as the peer), C14_premises_satisfiable (a concrete reachable peer meets the premises), C14_failure_leaves_not_loaded, C14_malformed_stream_refused (second self-sealed vertex, empty transaction, non-canonical amount, duplicate vertex/transaction, unknown parent or cycle), C14_followup_verdicts_refuted (the admission counters weight/throughput are NOT reproduced: kernel-checked pair of ledgers answering the same later vertex differently; KNOWN-FINDING reproduced on the real code on every run). The harness loads real streams into real nodes (5 stream corruptions), compares snapshots, balances and follow-up gossip; KNOWN-FINDING: a peer that has truncated cannot be loaded from.", "note": LEDGER_NOTE + " The reproduction theorem fixes the children-first witness order to the peer's own order (the model's load takes such an order as a hint; the code's graph library needs none); after truncation the premise st_vtx = [] fails (known finding).", "design_ref": "6 C14",
  },
 })
 CLAIMED.update({
